@@ -318,7 +318,7 @@ def flatten_factory(quick, seed):
 
     def h(ch):
         c = ch.choose("value", vals)
-        check = ch.choose("check", ["roundtrip", "inverse-on-vectors", "commutes-with-grad", "linear", "layout"])
+        check = ch.choose("check", ["roundtrip", "inverse-on-vectors", "commutes-with-grad", "linear", "layout", "flatten_func", "second-order", "jvp"])
         obs = {}
         with warnings.catch_warnings():
             warnings.simplefilter("ignore")
@@ -336,6 +336,39 @@ def flatten_factory(quick, seed):
                     v, w = onp.arange(n) * 0.5 - 1.0, onp.cos(onp.arange(n) + 1.0)
                     lhs = flatten(unflatten(2.0 * v + w))[0]
                     obs["ok"] = same(lhs, 2.0 * flatten(unflatten(v))[0] + flatten(unflatten(w))[0], 1e-13)
+                elif check in ("flatten_func", "second-order", "jvp"):
+                    from autograd.misc.flatten import flatten_func
+
+                    def g(cc, scale):      # container -> container of the same nesting
+                        return tmap_box(lambda leaf: scale * np.sin(leaf) * leaf, cc)
+                    if n == 0:
+                        obs["ok"] = True
+                    elif check == "flatten_func":
+                        ff, unfl, flat0 = flatten_func(g, c)
+                        lhs = ff(flat0, 1.5)
+                        rhs = flatten(g(c, 1.5))[0]
+                        J = ag.jacobian(ff)(flat0, 1.5)
+                        Jref = onp.diag(1.5 * (onp.cos(flat0) * flat0 + onp.sin(flat0)))
+                        obs["ok"] = same(lhs, rhs, 1e-13) and same(flat0, flat, 0) and same(J, Jref, 1e-12)
+                        obs["detail"] = (repr(lhs)[:100], repr(rhs)[:100])
+                    else:
+                        phi = lambda v: np.sum(flatten(g(unflatten(v), 1.0))[0] ** 2)
+                        x_ = onp.asarray(flat, dtype=float)
+                        s_, c_ = onp.sin(x_), onp.cos(x_)
+                        u = s_ * x_
+                        du = c_ * x_ + s_
+                        ddu = 2 * c_ - s_ * x_
+                        if check == "second-order":
+                            H = ag.hessian(phi)(x_)
+                            obs["ok"] = same(H, onp.diag(2 * du * du + 2 * u * ddu), 1e-11)
+                            obs["detail"] = (repr(onp.diag(H))[:100], repr(2 * du * du + 2 * u * ddu)[:100])
+                        else:
+                            t = onp.cos(onp.arange(n) + 0.5)
+                            try:
+                                obs["ok"] = same(ag.make_jvp(phi)(x_)(t)[1], onp.sum(2 * u * du * t), 1e-11)
+                            except NotImplementedError:
+                                obs["ok"] = True        # no forward rule for this constructor: a loud failure ("both modes where rules exist")
+                                obs["no_forward_rule"] = True
                 else:
                     def f(cc):
                         tot = 0.0
@@ -365,6 +398,19 @@ def flatten_factory(quick, seed):
         return res
 
     return h, judge
+
+
+def tmap_box(f, c):
+    """Leaf-wise map that also walks autograd's container boxes (built with autograd.builtins so that the result is traceable)."""
+    L = lib()
+    ab = L["ab"]
+    if ab.isinstance(c, dict):
+        return ab.dict({k: tmap_box(f, c[k]) for k in c})
+    if ab.isinstance(c, tuple):
+        return ab.tuple([tmap_box(f, e) for e in c])
+    if ab.isinstance(c, list):
+        return ab.list([tmap_box(f, e) for e in c])
+    return f(c)
 
 
 def _flat_ref(c):
